@@ -331,6 +331,11 @@ func usageKey(name string) verifsim.Key {
 	return verifsim.Key{Group: usageGroup, Kind: "Usage", Name: name}
 }
 
+type goneRec struct {
+	obj verifsim.Obj
+	seq int
+}
+
 type pendingVerdict struct {
 	key    verifsim.Key
 	denied error
@@ -345,7 +350,8 @@ type world struct {
 	entries  []webhookEntry
 
 	mu         sync.Mutex
-	lastGone   map[verifsim.Key]verifsim.Obj // last state of objects that are gone
+	lastGone   map[verifsim.Key]goneRec // last state of objects that are gone, and when they went
+	recStart   map[string]int           // actor of a reconcile -> sequence number of the last write before it started
 	protUID    map[string]string // Usage UID -> UID of the used resource it protected when Ready was stored ("-" if none)
 	pending    *pendingVerdict
 	lastDenied bool
@@ -415,7 +421,7 @@ func named(u verifsim.Obj, which string) (k verifsim.Key, ok bool, gk schema.Gro
 }
 
 func newWorld(rec *verifkit.Recorder, fail func(string, ...any)) *world {
-	w := &world{sim: verifsim.New(scheme), rec: rec, fail: fail, protUID: map[string]string{}, lastGone: map[verifsim.Key]verifsim.Obj{}}
+	w := &world{sim: verifsim.New(scheme), rec: rec, fail: fail, protUID: map[string]string{}, lastGone: map[verifsim.Key]goneRec{}, recStart: map[string]int{}}
 	w.sim.ClusterScoped = func(schema.GroupKind) bool { return true }
 	w.raceOpen = verifkit.OpenFinding("C19", findingKey)
 
@@ -482,7 +488,7 @@ func (w *world) monitor(v *verifsim.View, wr *verifsim.Write) {
 	}
 	if wr.Removed && wr.Before != nil {
 		w.mu.Lock()
-		w.lastGone[wr.Key] = wr.Before
+		w.lastGone[wr.Key] = goneRec{obj: wr.Before, seq: wr.Seq}
 		w.mu.Unlock()
 	}
 	if wr.Key.GK() == usageGK {
@@ -494,18 +500,30 @@ func (w *world) monitor(v *verifsim.View, wr *verifsim.Write) {
 			switch {
 			case !ok:
 				v.Violate("Ready=True stored on Usage %s (write #%d by %s) although it names no used resource", wr.Key.Name, wr.Seq, wr.Actor)
-			case r == nil:
-				// The used resource can only have vanished under a reconcile in flight if
-				// its deletion had been accepted earlier (it was Terminating); the clause
-				// then asks that the marker had been put on it.
+			case r == nil || !w.markerPresent(r):
+				// "The in-use marker is put on the used resource before the Usage reports
+				// ready" speaks about the object the reconcile marked. The only way that
+				// object can be gone (or be replaced by a new, unmarked object of the same
+				// name) at this instant is that another actor removed it WHILE this
+				// reconcile was in flight, which needs a deletion accepted before any
+				// protection existed. That is accepted if, and only if, the incarnation
+				// that went away during this very reconcile carried the marker. The new
+				// incarnation is not counted as protected by this Ready (prot stays "-"),
+				// exactly like the sequential variant of the same history.
 				w.mu.Lock()
 				gone := w.lastGone[rk]
+				start, known := w.recStart[wr.Actor]
 				w.mu.Unlock()
-				if !w.markerPresent(gone) {
-					v.Violate("Ready=True stored on Usage %s (write #%d by %s) but the used resource %s does not exist and did not carry the in-use marker when it went away", wr.Key.Name, wr.Seq, wr.Actor, rk)
+				excused := known && gone.obj != nil && gone.seq > start && w.markerPresent(gone.obj) &&
+					(r == nil || verifsim.MetaString(r, "uid") != verifsim.MetaString(gone.obj, "uid"))
+				switch {
+				case excused:
+					w.rec.Label("ready:used-resource-replaced-in-flight")
+				case r == nil:
+					v.Violate("Ready=True stored on Usage %s (write #%d by %s) but the used resource %s does not exist and no marked incarnation of it went away during this reconcile", wr.Key.Name, wr.Seq, wr.Actor, rk)
+				default:
+					v.Violate("Ready=True stored on Usage %s (write #%d by %s) but the used resource %s does not carry the in-use marker (labels %v)", wr.Key.Name, wr.Seq, wr.Actor, rk, verifsim.Labels(r))
 				}
-			case !w.markerPresent(r):
-				v.Violate("Ready=True stored on Usage %s (write #%d by %s) but the used resource %s does not carry the in-use marker (labels %v)", wr.Key.Name, wr.Seq, wr.Actor, rk, verifsim.Labels(r))
 			case !verifsim.Terminating(r):
 				prot = verifsim.MetaString(r, "uid")
 			}
@@ -532,6 +550,15 @@ func (w *world) monitor(v *verifsim.View, wr *verifsim.Write) {
 			}
 		}
 	}
+}
+
+// lastSeq is the sequence number of the last write the server has seen.
+func (w *world) lastSeq() int {
+	l := w.sim.Log()
+	if len(l) == 0 {
+		return 0
+	}
+	return l[len(l)-1].Seq
 }
 
 func (w *world) checkMonitors(ctx string) {
@@ -811,6 +838,9 @@ type recResult struct {
 
 func (w *world) newReconciler(name string, plan map[int]verifsim.Fault, pauseAt int) (*usagectl.Reconciler, *hookClient, *verifsim.Run) {
 	run := w.sim.NewRun("usage-reconcile/"+name, plan)
+	w.mu.Lock()
+	w.recStart[run.Actor] = w.lastSeq()
+	w.mu.Unlock()
 	hc := &hookClient{Client: run.Client(), pauseAt: pauseAt, parked: make(chan struct{}), release: make(chan struct{})}
 	mgr := &fakeMgr{c: hc, scheme: scheme}
 	return usagectl.NewReconciler(mgr, usagectl.WithPollInterval(time.Minute)), hc, run
